@@ -120,6 +120,12 @@ check("C18", "model_checking",
       "TLA+ value grammar enumerated by TLC; spec->impl replay through the JSON transpile target with json.loads comparison",
       "DESIGN.md section 6 C18")
 
+check("C14", "translation_validation",
+      "Artefact model checking. Programs (examples/ and tests/should_ok corpus, ErgProg.tla programs, generated programs large enough to need EXTENDED_ARG operands) are compiled in-process for each target (3.11 and 3.8 quick; 3.7-3.11 thorough). py/verif/extract_cfg.py, run under the target interpreter, turns every code object (recursively) into the constant of CodeObjCFG.tla using that interpreter's own dis.get_instructions / dis.stack_effect / exception table. TLC explores every path of every code object as a state machine over (code object, instruction, stack depth): jumps land on instruction boundaries, the stack never underflows, co_stacksize covers every reachable depth, operand indices are in range, and the line table gives every reachable instruction a line of the source file. After each violation the offending code objects are excluded and TLC is re-run, so all violations are found. 17 recorded findings (line tables on all targets; co_stacksize off by one in two constructs; odd jump operands on 3.7-3.9) are listed in known_findings.json by (invariant, target, opcode).",
+      "Trusted: TLC; the target interpreters' dis module; depth invariants are not judged on 3.7 (its stack_effect cannot distinguish branch edges).",
+      "P3 artefact model checking: emitted code objects loaded as TLA+ constants, abstract interpreter explored by TLC",
+      "DESIGN.md section 6 C14")
+
 NOT_APPLICABLE = {
     "C16": "static comparison of opcode/magic tables with external ground truth: no state or behaviour for a TLA+ specification to constrain (DESIGN.md section 7)",
     "C27": "data audit of ~150 declaration files against installed interpreters/typeshed: no behaviour to model in TLA+ (DESIGN.md section 7)",
